@@ -65,6 +65,23 @@ MISSED_FIRST = {
     "C19-contains-array-drops-tol": "`contains(x, tol=...)` with a data-scaled tolerance, single point and 3 x N array",
     "C19-eq-abs-dot": "`LineCases` kind 'reversed' (same points, opposite orientation)",
     "C20-cross-allclose-zero": "`crm_near` events: v x (K v + d) = K (v x d) judged by TLC",
+    # round 6
+    "C01-trnorm-no-final-normalise": "`Ctor.VNorm` (members spoiled by rounding / shear / scaling, then normalised, every entry point)",
+    "C03-isunittwist2-signed": "reversed unit twists with negated angle in `Screw.UnitExp` replay",
+    "C06-uq-inv-cache-stale": "multi-valued inverse evaluated again after the object was edited through its list interface",
+    "C07-uq-nx4-frobenius-norm": "form 'array' (N x 4) for UnitQuaternion in `Validity`",
+    "C07-isR-dtype-eps": "far arrays also in single precision; magnitude 3e-6",
+    "C09-theta-unwrap-coupling": "per-value methods on objects holding SPREAD values (angles either side of pi, both quaternion signs)",
+    "C11-trinterp2-result-dtype": "end poses stored with an integer dtype",
+    "C12-udq-init-unit-real-only": "`QuatTrace.udq_dq_mul` (unit x general dual quaternion)",
+    "C13-tr2jac-samebody-is-True": "truthy flag values (1, numpy bool, positional)",
+    "C14-uq-unit-clone-pair": "`unit()` of a UnitQuaternion object holding a non-unit value",
+    "C15-transl2-numpy-int-scalars": "`Api.ScalarTypes` (Python and NumPy scalar types of the separate-scalar forms)",
+    "C16-simplify-lastrow-identity-SO": "`SO3.simplify`; simplify() judged as value-preserving",
+    "C16-norm-powdenest-force": "symbolic vectors with one non-zero component",
+    "C17-intersect-volume-sorts-bounds": "Plucker methods (contains, closest, intersect_plane, intersect_volume) in `Api.VecApi` - found the array_like defect of intersect_volume",
+    "C18-line-first-direction": "line() of a Twist3 holding several unit twists (and twist exp / line / conversion judged per value in C09)",
+    "C20-ctor-6x6-transposed": "`addn / subn / negn` events on objects holding N = 2, 3, 6, 7 values",
 }
 
 
